@@ -377,6 +377,33 @@ def tlc_verdicts(stdout):
     return out
 
 
+def validate_trace_files(module, cfgfile, paths, tag, timeout=3600):
+    """TLC trace validation of ND-JSON files already on disk (one TLC process per file, in parallel)."""
+    results = [None] * len(paths)
+
+    def go(k):
+        results[k] = run_tlc(module, cfgfile, env={"TRACE": paths[k]}, timeout=timeout,
+                             metadir=os.path.join(WORK, "md-%s-%d-%d" % (tag, os.getpid(), k)))
+    ths = [threading.Thread(target=go, args=(k,)) for k in range(len(paths))]
+    for t in ths:
+        t.start()
+    for t in ths:
+        t.join()
+    verdicts = []
+    states = distinct = 0
+    for k, r in enumerate(results):
+        ok = "Model checking completed. No error has been found." in r["stdout"]
+        if not ok:
+            tail = "\n".join(r["stdout"].splitlines()[-40:])
+            sys.stderr.write(tail + "\n" + r["stderr"][-2000:] + "\n")
+            raise ToolError("TLC did not accept/consume trace chunk %s (rc=%s)" % (paths[k], r["rc"]))
+        verdicts += tlc_verdicts(r["stdout"])
+        states += r.get("states", 0)
+        distinct += r.get("distinct", 0)
+        os.unlink(paths[k])
+    return verdicts, {"states": states, "distinct": distinct}
+
+
 def validate_trace(module, cfgfile, records, tag, chunks=None, timeout=1800):
     """Write records as ND-JSON, run TLC trace validation (split in parallel chunks), return verdicts.
     Raises ToolError if TLC did not consume every record."""
